@@ -1,7 +1,7 @@
 #!/bin/sh
-# Replay for the known finding C05/R05.5 (pending array): an event with a list of RDATEs becomes a stream that keeps its pending
-# occurrences in an array; send_evical_vevent() writes ev[i] as DTSTART and nothing else.  Whenever such a task is written (checkpoint,
-# echsq submission, echse merge) every RDATE but the next one is lost.
+# Replay for C05/R05.5 (pending array), fixed by 78bcfdb: an event with a list of RDATEs becomes a stream that keeps its pending
+# occurrences in an array; send_evical_vevent() wrote ev[i] as DTSTART and nothing else.  Whenever such a task was written (checkpoint,
+# echsq submission, echse merge) every RDATE but the next one was lost.
 cd "$(dirname "$0")"; E=${ECHSE:-/repo/src/echse}
 T=$(mktemp -d); trap 'rm -rf "$T"' EXIT
 a=$($E unroll three_rdates.ics | cut -f1 | tr '\n' ' ')
